@@ -19,6 +19,7 @@
 // IN AN ACTION OF CONTRACT, TORT OR OTHERWISE, ARISING FROM, OUT OF OR IN
 // CONNECTION WITH THE SOFTWARE OR THE USE OR OTHER DEALINGS IN THE SOFTWARE.
 
+//go:build go1.7
 // +build go1.7
 
 package logger
@@ -27,6 +28,7 @@ import (
 	"context"
 	"fmt"
 	"os"
+	"sync"
 )
 
 func (v *loggerPlus) Println(ctx Context, a ...interface{}) {
@@ -68,10 +70,17 @@ var cidKey key = "cid.logger.ossrs.org"
 
 var gCid int = 999
 
+// To protect the gCid, for contexts may be created by goroutines concurrently.
+var gCidLock sync.Mutex
+
 // Create context with value.
 func WithContext(ctx context.Context) context.Context {
+	gCidLock.Lock()
 	gCid += 1
-	return context.WithValue(ctx, cidKey, gCid)
+	cid := gCid
+	gCidLock.Unlock()
+
+	return context.WithValue(ctx, cidKey, cid)
 }
 
 // Create context with value from parent, copy the cid from source context.
